@@ -1,4 +1,5 @@
 import PSO.Proofs.FramingE2E
+import PSO.Proofs.FramingDuplex
 
 /-! A tiny concrete codec and concrete event lists, used by the non-vacuity `example`s of Props/C13. -/
 namespace PSO.Framing.Ex
@@ -41,5 +42,27 @@ def writesShort : List (Ev Bool) := writes.take 2
 
 /-- reads that deliver the ten bytes of `writes` -/
 def readsW : List (Nat × List Bytes) := [(1, [[1, 0, 0], [0, 1, 1, 0]]), (2, [[0, 0, 0]])]
+
+
+/-- full duplex: the twelve bytes of `reads` arrive while the application sends two messages through short
+writes, a zero write and EAGAIN; one poller event carries READ and WRITE together -/
+def ioEvs : List (IoEv Bool) :=
+  [.send true 1 [.ret 3, .again], .io 2 true true [.ret 1] [[1, 0, 0], [0, 1, 1]], .send false 3 [],
+   .io 5 true false [] [[0, 0, 0, 0, 1, 0]], .io 6 false true [.ret 0] []]
+
+theorem ioOk : ∀ e ∈ ioEvs, e.Ok := by
+  intro e he
+  simp only [ioEvs, List.mem_cons, List.mem_nil_iff, or_false] at he
+  rcases he with rfl | rfl | rfl | rfl | rfl <;> simp [IoEv.Ok, BenignSend]
+
+/-- the same with a negative length field after the first frame -/
+def ioEvsNeg : List (IoEv Bool) :=
+  [.send true 1 [.ret 3, .again], .io 2 true true [.ret 1] [[1, 0, 0, 0]], .send false 3 [],
+   .io 4 true false [] [[1, 0xFB, 0xFF], [0xFF, 0xFF, 9, 9]]]
+
+theorem ioOkNeg : ∀ e ∈ ioEvsNeg, e.Ok := by
+  intro e he
+  simp only [ioEvsNeg, List.mem_cons, List.mem_nil_iff, or_false] at he
+  rcases he with rfl | rfl | rfl | rfl <;> simp [IoEv.Ok, BenignSend]
 
 end PSO.Framing.Ex
